@@ -3,7 +3,7 @@
 ALL = ["CreateGroup", "CreateObject", "AddData", "AddVisual", "AddComment", "AddFile", "CreateWithUid", "Rename", "SetFlag", "SetVal", "SetMeta", "Move", "MoveSame", "AddToGroup",
        "AddDataFails", "StripOpt", "SaveAs", "Helper", "Copy2", "Remove2", "ScrubData", "CreateDeferred", "PGWithUid",
        "RemoveFromGroup", "RemovePG", "RemoveViaWorkspace", "RemoveViaParent", "DropRef", "Collect", "Purge",
-       "LookupDead", "Copy", "Close", "Open", "CallClosed"]
+       "LookupDead", "Copy", "Close", "Open", "CallClosed", "RemoveBlocked", "OpenAgain"]
 INV_ASBUILT = ["TypeOK", "DirtyOnlyInRW", "W2WellFormed", "ReopenEqualsLive", "LinksToNodes", "OneParent", "PGPropsAreChildren", "WriteThrough",
                "NoDanglingPG", "RegistryMatchesMemory"]
 PROPS = ["Footprint", "FrozenFile", "OptStaysStripped", "FreshOnlyWhenTaken"]
@@ -30,7 +30,7 @@ def minus(*drop):
 
 
 GC = ["DropRef", "Collect", "Purge", "LookupDead"]
-NEW = ["AddComment", "AddFile", "AddVisual", "SetMeta", "MoveSame", "AddDataFails", "StripOpt", "SaveAs", "Helper", "Copy2", "Remove2", "ScrubData", "CreateDeferred", "PGWithUid"]
+NEW = ["RemoveBlocked", "OpenAgain", "AddComment", "AddFile", "AddVisual", "SetMeta", "MoveSame", "AddDataFails", "StripOpt", "SaveAs", "Helper", "Copy2", "Remove2", "ScrubData", "CreateDeferred", "PGWithUid"]
 BASE = minus("CreateWithUid", "CallClosed", *NEW)
 # --- C01: histories of create/assign/rename/move/copy/delete with close/re-open and GC points
 cfg("C01_quick", 1, 1, 1, 1, [a for a in BASE if a != "SetFlag"] + ["MoveSame", "CreateDeferred", "AddDataFails"], 6, names=("a",), vals=(1, 2))
@@ -57,10 +57,13 @@ cfg("C05_quick", 1, 1, 2, 2, C05A, 6, names=("a", "b"), vals=(1,))
 # removal of special children (visual parameters, comments, files) and of their owners
 cfg("C05vp_quick", 1, 1, 2, 1, ["CreateGroup", "CreateObject", "AddVisual", "AddComment", "AddFile", "RemoveViaWorkspace",
                                 "RemoveViaParent", "Copy", "Close", "Open"] + GC, 5, names=("a",), vals=(1,))
-cfg("C05_thorough", 2, 1, 2, 2, C05A + ["RemoveFromGroup", "Move"], 6, names=("a", "b"), vals=(1,))
+# removal refused below the entity asked for (protected descendants): the as-built partial removal
+cfg("C05blk_quick", 2, 1, 2, 1, ["CreateGroup", "CreateObject", "AddData", "SetFlag", "RemoveBlocked", "RemoveViaWorkspace", "Close", "Open",
+                                 "Collect", "DropRef"], 7, names=("a",), vals=(1,))
+cfg("C05_thorough", 2, 1, 2, 2, C05A + ["RemoveFromGroup", "Move", "RemoveBlocked"], 6, names=("a", "b"), vals=(1,))
 # --- C06: identifiers: explicit uids, collisions with live entities of any kind, re-creation, copies
 C06A = ["CreateGroup", "CreateObject", "AddData", "CreateWithUid", "RemoveViaWorkspace", "RemoveViaParent", "Copy", "Close",
-        "Open"] + GC
+        "Open", "OpenAgain"] + GC
 # property groups requested with identifiers in use (same object, other object, entities of other kinds)
 cfg("C06pg_quick", 0, 2, 2, 2, ["CreateObject", "AddData", "AddToGroup", "PGWithUid", "RemoveFromGroup", "Close", "Open"], 6,
     names=("a", "b"), vals=(1,))
@@ -79,7 +82,7 @@ cfg("C09_thorough", 2, 1, 2, 2, BASE + ["MoveSame", "StripOpt", "AddDataFails", 
 # --- C11: close / abort at every point (also after a failed operation), calls on a closed workspace, re-open,
 #          save_as, fetch_active_workspace re-opening in another mode
 C11A = ["CreateGroup", "CreateObject", "AddData", "SetVal", "Rename", "RemoveViaWorkspace", "RemoveViaParent", "Close", "Open",
-        "CallClosed", "AddDataFails", "SaveAs", "Helper"]
+        "CallClosed", "AddDataFails", "SaveAs", "Helper", "OpenAgain"]
 cfg("C11_quick", 1, 1, 1, 1, C11A, 5, names=("a", "b"))
 cfg("C11_thorough", 2, 1, 2, 1, C11A + ["Move", "Copy", "AddToGroup", "Collect", "DropRef"], 6, names=("a", "b"))
 # --- C12: copies of data / objects / groups, deep and shallow, then edits of copy and source, re-open
